@@ -3,17 +3,32 @@
 //
 // Explicit-state search (E3) over histories on a tree of reusable handles,
 // executed on the real gorm code: a base chain of <=3 calls is turned into a
-// reusable handle H (Session / WithContext / Debug / Begin); two chains A and B
-// of <=2 calls are derived from H, built and executed in every interleaving;
-// H itself is executed in between. Oracle (self-differential): after every
-// transition the SQL text + bound values produced by every finished chain and
-// by DryRun probes of every live reusable handle equal what the same call list
-// produces when it is replayed alone on a fresh gorm.Open.
+// reusable handle H (Session / WithContext / Debug / Begin, or the gorm.Open
+// handle itself); two chains A and B of <=2 calls are derived from H, built and
+// executed in every interleaving (a fork may also be turned into a handle of
+// its own); H itself is executed in between.
+//
+// Oracle (self-differential, no SQL literal anywhere): after every transition
+// the SQL text + bound values (+ error) produced by every finished chain and by
+// probes (Find / Update / Create executed directly on the handle) of every live
+// reusable handle equal what the same call list produces when it is replayed
+// alone on a fresh gorm.Open. On SQLite the observation is the statement log of
+// the recording driver (incl. preload queries) + RowsAffected.
+//
+// Files: model.go (models, alphabet, finishers), engine.go (history execution,
+// oracle, tags), main.go (enumeration plan, reporting).
+//
+// Development aids (environment): C06_PLAN=1 print the enumeration plan and
+// exit; C06_ONLY=P1-WHERE,PR- restrict to blocks (evidence is then marked not
+// exhaustive); C06_BUDGET=30m override the internal deadline; C06_DUMP=1 print
+// one line per violation to stderr and never stop early; C06_PROF=file.
 package main
 
 import (
+	"encoding/json"
 	"fmt"
 	"os"
+	"path/filepath"
 	"runtime/debug"
 	"runtime/pprof"
 	"sort"
@@ -59,6 +74,10 @@ type plan struct {
 	Fins   [][2]int
 	Scheds [][]event
 	Modes  []bool // dense?
+	// PerBase: one unit of work per (base, maker) instead of per (base, maker, fork A)
+	PerBase bool
+	// Prefix: part of the quick enumeration executed first in the thorough tier
+	Prefix bool
 }
 
 func (p *plan) size() int64 {
@@ -70,7 +89,7 @@ type unit struct {
 	p     *plan
 	base  []int
 	maker int
-	a     []int
+	a     []int // nil with p.PerBase: all of p.ForksA
 }
 
 var (
@@ -186,7 +205,7 @@ func buildPlans(tier string) []*plan {
 		big := len(quickV) > 2 // WHERE
 		fins := core
 		if big && !thorough {
-			fins = core[:12]
+			fins = core[:9]
 		}
 		if thorough && len(wide) <= 2 {
 			fins = all
@@ -207,16 +226,23 @@ func buildPlans(tier string) []*plan {
 		plans = append(plans, &plan{Name: "P1-" + k, Bases: bases, Makers: []int{mkSession}, ForksA: forks, ForksB: forks, Fins: fins, Scheds: baseScheds(), Modes: both})
 		// the other two handle makers with few finisher pairs
 		mf := few[:2]
+		if big && !thorough {
+			mf = few[:1]
+		}
 		if thorough {
 			mf = few[:4]
 		}
 		plans = append(plans, &plan{Name: "P1m-" + k, Bases: deepBases, Makers: []int{mkContext, mkDebug}, ForksA: deepForks, ForksB: deepForks, Fins: mf, Scheds: baseScheds(), Modes: both})
 		// the handle itself executed in between (without the dense probes, which execute it at every gap anyway)
 		hf := []int{fFind}
+		hfins := few[:2]
+		if big && !thorough {
+			hfins = few[1:2]
+		}
 		if thorough {
 			hf = []int{fFind, fCount}
 		}
-		plans = append(plans, &plan{Name: "P1h-" + k, Bases: deepBases, Makers: []int{mkSession}, ForksA: deepForks, ForksB: deepForks, Fins: few[:2], Scheds: innerExecH(baseScheds(), hf, !thorough), Modes: []bool{false}})
+		plans = append(plans, &plan{Name: "P1h-" + k, Bases: deepBases, Makers: []int{mkSession}, ForksA: deepForks, ForksB: deepForks, Fins: hfins, Scheds: innerExecH(baseScheds(), hf, !thorough), Modes: []bool{false}})
 	}
 
 	// P0: the forks start at the gorm.Open handle itself (and at Session/WithContext/Debug of it)
@@ -236,10 +262,25 @@ func buildPlans(tier string) []*plan {
 		crossTier = tThor
 	}
 	cross := opsUpTo(crossTier)
-	plans = append(plans, &plan{Name: "P2-cross", Bases: seqs(cross, 0, 1), Makers: []int{mkSession}, ForksA: seqs(cross, 1, 1), ForksB: seqs(cross, 1, 1), Fins: few[:2], Scheds: baseScheds(), Modes: both})
+	p2scheds := [][]event{sABab, sAaBb}
+	if thorough {
+		p2scheds = baseScheds()
+	}
+	plans = append(plans, &plan{Name: "P2-cross", Bases: seqs(cross, 0, 1), Makers: []int{mkSession}, ForksA: seqs(cross, 1, 1), ForksB: seqs(cross, 1, 1), Fins: few[:2], Scheds: p2scheds, Modes: both})
 	if thorough {
 		q := opsUpTo(tQuick)
 		plans = append(plans, &plan{Name: "P2-cross-deep", Bases: seqs(q, 2, 2), Makers: []int{mkSession}, ForksA: seqs(q, 1, 1), ForksB: seqs(q, 1, 1), Fins: few[:1], Scheds: [][]event{sABab, sAaBb}, Modes: both})
+	}
+
+	// P5: every base of two (thorough: also three) calls over the quick alphabet, one fork of one call executed,
+	// then a second, fixed fork: does executing a chain change what the handle (or a later chain) produces?
+	{
+		q := opsUpTo(tQuick)
+		bases := seqs(q, 2, 2)
+		if thorough {
+			bases = seqs(q, 2, 3)
+		}
+		plans = append(plans, &plan{Name: "P5-exec-then-later-chain", Bases: bases, Makers: []int{mkSession}, ForksA: seqs(q, 1, 1), ForksB: [][]int{{opByLabel[`Limit(5)`]}}, Fins: [][2]int{{fFind, fFind}, {fHandle, fUpdate}}, Scheds: [][]event{sAaBb}, Modes: []bool{true}, PerBase: true})
 	}
 
 	// P3: two kinds — base of 2..3 calls over one variant of each of two kinds, forks over the same calls
@@ -309,7 +350,7 @@ func buildPlans(tier string) []*plan {
 				}
 			}
 			fk := seqs(al, 1, 1)
-			plans = append(plans, &plan{Name: "P4-allbases", Bases: [][]int{b}, Makers: []int{mkSession}, ForksA: fk, ForksB: fk, Fins: [][2]int{{fHandle, fHandle}, {fFind, fUpdate}}, Scheds: [][]event{sABab, sAaBb}, Modes: []bool{true}})
+			plans = append(plans, &plan{Name: "P4-allbases", Bases: [][]int{b}, Makers: []int{mkSession}, ForksA: fk, ForksB: fk, Fins: [][2]int{{fHandle, fHandle}, {fFind, fUpdate}}, Scheds: [][]event{sABab, sAaBb}, Modes: []bool{true}, PerBase: true})
 		}
 	}
 
@@ -355,8 +396,13 @@ func buildPlans(tier string) []*plan {
 }
 
 func main() {
-	debug.SetGCPercent(300) // the harness allocates many short-lived statements and keeps little
 	args := mc.ParseArgs()
+	// the harness allocates many short-lived statements and keeps little (thorough keeps ~10^7 state hashes)
+	if args.Tier == "thorough" {
+		debug.SetGCPercent(300)
+	} else {
+		debug.SetGCPercent(800)
+	}
 	run := mc.NewRun("C06", args.Tier, "model_checking")
 	if args.Replay != "" {
 		var j HistoryJSON
@@ -381,12 +427,22 @@ func main() {
 	}
 
 	plans := buildPlans(args.Tier)
+	if args.Tier == "thorough" {
+		// the quick enumeration runs first (it is a subset of the thorough one; the duplicates cost ~10%):
+		// whatever quick finds, thorough finds in its first minutes even if the deadline cuts the rest
+		pre := buildPlans("quick")
+		for _, p := range pre {
+			p.Name = "q:" + p.Name
+			p.Prefix = true
+		}
+		plans = append(pre, plans...)
+	}
 	if only := os.Getenv("C06_ONLY"); only != "" {
 		// development aid: restrict the run to the blocks whose name starts with one of the given prefixes
 		var sel []*plan
 		for _, p := range plans {
 			for _, pre := range strings.Split(only, ",") {
-				if strings.HasPrefix(p.Name, pre) {
+				if strings.HasPrefix(strings.TrimPrefix(p.Name, "q:"), pre) {
 					sel = append(sel, p)
 					break
 				}
@@ -400,6 +456,10 @@ func main() {
 		planned += p.size()
 		for _, b := range p.Bases {
 			for _, m := range p.Makers {
+				if p.PerBase {
+					units = append(units, unit{p: p, base: b, maker: m})
+					continue
+				}
 				for _, a := range p.ForksA {
 					units = append(units, unit{p: p, base: b, maker: m, a: a})
 				}
@@ -408,7 +468,17 @@ func main() {
 	}
 	// shortest histories first, so that the first counterexamples reported are the smallest
 	sort.SliceStable(units, func(i, j int) bool {
-		return len(units[i].base)+len(units[i].a) < len(units[j].base)+len(units[j].a)
+		if units[i].p.Prefix != units[j].p.Prefix {
+			return units[i].p.Prefix
+		}
+		li, lj := len(units[i].base)+len(units[i].a), len(units[j].base)+len(units[j].a)
+		if units[i].p.PerBase {
+			li++
+		}
+		if units[j].p.PerBase {
+			lj++
+		}
+		return li < lj
 	})
 	if pf := os.Getenv("C06_PROF"); pf != "" {
 		f, _ := os.Create(pf)
@@ -435,10 +505,20 @@ func main() {
 	}
 	deadline := run.Start.Add(budget)
 
-	maxUnknown := int64(300)
+	// unlisted violations: at most 300 per class (= input-side tag list) are handed to the run, and the
+	// enumeration stops after 2000 in total, so that every class met before that gets reported
+	const maxPerClass = 300
+	maxUnknown := int64(2000)
 	if os.Getenv("C06_DUMP") != "" {
 		maxUnknown = 1 << 40
 	}
+	type vclass struct {
+		Count   int
+		Known   bool // listed in known_findings.json (run.Violation said so)
+		Example HistoryJSON
+		Message string
+	}
+	classes := map[string]*vclass{}
 	var (
 		next      int64 = -1
 		stop      int32
@@ -449,6 +529,7 @@ func main() {
 		samples   = &mc.Samples{N: 6}
 		flaky     []string
 		doneUnits int64
+		skipped   int64
 		wg        sync.WaitGroup
 	)
 	nw := 16
@@ -470,52 +551,79 @@ func main() {
 				u := units[n]
 				w.memo = map[string]string{}
 				p := u.p
-				for _, b := range p.ForksB {
-					for _, fp := range p.Fins {
-						for _, sc := range p.Scheds {
-							for _, dense := range p.Modes {
-								hs := &hist{Real: p.Real, Base: u.base, Maker: u.maker, A: u.a, B: b, FinA: fp[0], FinB: fp[1], Events: sc, Dense: dense}
-								f := w.run(hs, false, nil)
-								if f == nil {
-									continue
-								}
-								// confirm on a fresh gorm.Open: the verdict must not depend on what this worker ran before
-								f2 := w.run(hs, true, nil)
-								if f2 == nil {
+				forksA := [][]int{u.a}
+				if p.PerBase {
+					forksA = p.ForksA
+				}
+				for _, fa := range forksA {
+					for _, b := range p.ForksB {
+						for _, fp := range p.Fins {
+							for _, sc := range p.Scheds {
+								for _, dense := range p.Modes {
+									hs := &hist{Real: p.Real, Base: u.base, Maker: u.maker, A: fa, B: b, FinA: fp[0], FinB: fp[1], Events: sc, Dense: dense}
+									if outOfScope(hs) {
+										atomic.AddInt64(&skipped, 1)
+										continue
+									}
+									f := w.run(hs, false, nil)
+									if f == nil {
+										continue
+									}
+									// confirm on a fresh gorm.Open: the verdict must not depend on what this worker ran before
+									f2 := w.run(hs, true, nil)
+									if f2 == nil {
+										mu.Lock()
+										if len(flaky) < 5 {
+											flaky = append(flaky, f.message(hs))
+										}
+										mu.Unlock()
+										// the long-lived root may have been damaged: replace it
+										w.dryRoot = nil
+										if w.realEnv != nil {
+											w.realEnv.Close()
+											w.realEnv = nil
+										}
+										continue
+									}
+									if os.Getenv("C06_DUMP") != "" {
+										fmt.Fprintf(os.Stderr, "DUMP %v | %s | %s | step %d %s | exp %s | obs %s\n", tags(hs), f2.Kind, strings.ReplaceAll(hs.String(), "\n", " ;"), f2.Step, f2.What, f2.Expected, f2.Observed)
+									}
+									tg := tags(hs)
+									key := fmt.Sprint(tg)
 									mu.Lock()
-									if len(flaky) < 5 {
-										flaky = append(flaky, f.message(hs))
+									cl := classes[key]
+									if cl == nil {
+										cl = &vclass{Example: hs.JSON(), Message: f2.message(hs)}
+										classes[key] = cl
 									}
+									cl.Count++
+									skip := !cl.Known && cl.Count > maxPerClass
 									mu.Unlock()
-									// the long-lived root may have been damaged: replace it
-									w.dryRoot = nil
-									if w.realEnv != nil {
-										w.realEnv.Close()
-										w.realEnv = nil
+									if !skip {
+										if run.Violation(tg, f2.message(hs), hs.JSON()) {
+											if atomic.AddInt64(&unknown, 1) >= maxUnknown {
+												atomic.StoreInt32(&stop, 1)
+											}
+										} else {
+											mu.Lock()
+											cl.Known = true
+											mu.Unlock()
+										}
 									}
-									continue
-								}
-								if os.Getenv("C06_DUMP") != "" {
-									fmt.Fprintf(os.Stderr, "DUMP %v | %s | %s | step %d %s | exp %s | obs %s\n", tags(hs), f2.Kind, strings.ReplaceAll(hs.String(), "\n", " ;"), f2.Step, f2.What, f2.Expected, f2.Observed)
-								}
-								if run.Violation(tags(hs), f2.message(hs), hs.JSON()) {
-									if atomic.AddInt64(&unknown, 1) >= maxUnknown {
-										atomic.StoreInt32(&stop, 1)
+									if atomic.LoadInt32(&stop) != 0 {
+										break
 									}
-								}
-								if atomic.LoadInt32(&stop) != 0 {
-									break
 								}
 							}
 						}
-					}
-					if atomic.LoadInt32(&stop) != 0 {
-						break
+						if atomic.LoadInt32(&stop) != 0 {
+							break
+						}
 					}
 				}
 				atomic.AddInt64(&doneUnits, 1)
 				if n%97 == 0 {
-					samples.Add((&hist{Real: p.Real, Base: u.base, Maker: u.maker, A: u.a, B: p.ForksB[len(p.ForksB)/2], FinA: p.Fins[0][0], FinB: p.Fins[0][1], Events: p.Scheds[0], Dense: p.Modes[0]}).JSON())
+					samples.Add((&hist{Real: p.Real, Base: u.base, Maker: u.maker, A: forksA[0], B: p.ForksB[len(p.ForksB)/2], FinA: p.Fins[0][0], FinB: p.Fins[0][1], Events: p.Scheds[0], Dense: p.Modes[0]}).JSON())
 				}
 			}
 			mu.Lock()
@@ -533,6 +641,27 @@ func main() {
 	}
 	wg.Wait()
 
+	// one example replay per class of violation (mc.Run writes replay files only for the first five violations)
+	var keys []string
+	for k := range classes {
+		keys = append(keys, k)
+	}
+	sort.Strings(keys)
+	classCounts := map[string]int{}
+	for i, k := range keys {
+		cl := classes[k]
+		classCounts[k] = cl.Count
+		if cl.Known {
+			continue
+		}
+		dir := filepath.Join(mc.Root(), "replays")
+		os.MkdirAll(dir, 0o755)
+		path := filepath.Join(dir, fmt.Sprintf("C06-%s-class-%d.json", args.Tier, i+1))
+		b, _ := json.MarshalIndent(map[string]interface{}{"property": "C06", "tags": k, "message": cl.Message, "replay": cl.Example}, "", " ")
+		os.WriteFile(path, b, 0o644)
+		fmt.Printf("VIOLATION-CLASS property=C06 input-tags=%s failing-histories=%d example-replay=%s\n", k, cl.Count, path)
+	}
+
 	exhaustive := atomic.LoadInt32(&timedOut) == 0 && atomic.LoadInt32(&stop) == 0 && int(doneUnits) == len(units) && os.Getenv("C06_ONLY") == ""
 	for _, m := range flaky {
 		run.HarnessError("a failure seen on a worker's long-lived gorm.Open handle did not reproduce on a fresh gorm.Open (state carried over between histories, or nondeterminism):\n%s", m)
@@ -547,21 +676,24 @@ func main() {
 	run.Assume("DryRun dialector with '?' placeholders plus SQLite; one model (User belongs-to Company, soft delete); values outside the argument variants of the alphabet are not explored")
 	run.Assume("intermediate chain objects (clone == 0) are used linearly; forks happen only at reusable handles (gorm.Open, Session, WithContext, Debug, Begin) — the only exception is the Count-then-Find idiom on one chain, executed on SQLite")
 	run.Assume("the isolated replay on a fresh gorm.Open is the reference: a defect that changes a chain even when it is the only one ever built is out of scope (C02/C19 look at that)")
+	run.Assume("Count-then-Find on one chain object is only checked for chains without pending Scopes (scopes run and are consumed during the Count, and Count's restore of ORDER BY then discards an ORDER BY added by the scope: observed, reported, outside the property because the chain is not a reusable handle)")
 	run.Assume("Statement.Settings (Set/InstanceSet), Attrs/Assign (C16), Raw/Exec, MapColumns, Clauses(clause.From{..}) and prepared-statement sessions are outside the alphabet")
 	pprof.StopCPUProfile()
 	run.Finish(map[string]interface{}{
-		"states":                        setStates.len(),
-		"transitions":                   total.transitions,
-		"traces_validated_against_impl": total.transitions,
-		"evaluations":                   total.histories,
-		"distinct_nontrivial":           setNontrivial.len(),
-		"rule":                          "histories = base chain (<=3 calls) -> handle maker (Session | WithContext | Debug | Begin on SQLite | the gorm.Open handle itself) -> two forks (<=2 calls each) x finisher pair (Find First Count Update Delete Create | fork turned into a handle and probed | on SQLite: Find Count First, Count-then-Find on one chain) x schedule {aBuild bBuild aExec bExec | aBuild bBuild bExec aExec | aBuild aExec bBuild bExec} (forks range over ordered pairs, so the mirrored schedules are included) x probe mode {after every transition | only at the end} [+ one execution of the handle itself at a gap]. Blocks: P0 forks from the Open handle; P1 base and both forks from the variants of one clause kind (P1m other handle makers, P1h handle executed in between); P2 one call each from any kinds; P3 two kinds mixed; P4 (thorough) every 3-call base over the quick alphabet with one-call forks from the kinds in the base; PR the same on SQLite with real queries. distinct_nontrivial = distinct (base, maker, fork, finisher) specs with a non-empty fork whose output was compared with its isolated replay on a fresh gorm.Open; states = distinct handle-tree specs (base+maker; per fork: not built / built / finished / handle + its calls + finisher); transitions = handle made, fork built, fork executed, handle executed — each executed on the implementation and followed by the oracle",
-		"samples":                       samples.List(),
-		"exhaustive":                    exhaustive,
-		"planned_histories":             planned,
-		"units_done":                    doneUnits,
-		"units":                         len(units),
-		"histories_on_sqlite":           total.realHistories,
+		"states":                            setStates.len(),
+		"transitions":                       total.transitions,
+		"traces_validated_against_impl":     total.transitions,
+		"evaluations":                       total.histories,
+		"distinct_nontrivial":               setNontrivial.len(),
+		"rule":                              "histories = base chain (<=3 calls) -> handle maker (Session | WithContext | Debug | Begin on SQLite | the gorm.Open handle itself) -> two forks (<=2 calls each) x finisher pair (Find First Count Update Delete Create | fork turned into a handle and probed | on SQLite: Find Count First, Count-then-Find on one chain) x schedule {aBuild bBuild aExec bExec | aBuild bBuild bExec aExec | aBuild aExec bBuild bExec} (forks range over ordered pairs, so the mirrored schedules are included) x probe mode {after every transition | only at the end} [+ one execution of the handle itself at a gap]. Blocks: P0 forks from the Open handle; P1 base and both forks from the variants of one clause kind (P1m other handle makers, P1h handle executed in between); P2 one call each from any kinds; P3 two kinds mixed; P4 (thorough) every 3-call base over the quick alphabet with one-call forks from the kinds in the base; PR the same on SQLite with real queries. distinct_nontrivial = distinct (base, maker, fork, finisher) specs with a non-empty fork whose output was compared with its isolated replay on a fresh gorm.Open; states = distinct handle-tree specs (base+maker; per fork: not built / built / finished / handle + its calls + finisher); transitions = handle made, fork built, fork executed, handle executed — each executed on the implementation and followed by the oracle",
+		"samples":                           samples.List(),
+		"exhaustive":                        exhaustive,
+		"violating_histories_by_input_tags": classCounts,
+		"planned_histories":                 planned,
+		"skipped_count_then_find_with_pending_scopes": skipped,
+		"units_done":          doneUnits,
+		"units":               len(units),
+		"histories_on_sqlite": total.realHistories,
 		"nv_both_forks_extend_a_clause_kind_of_the_parent": total.nvSameKind,
 		"nv_both_forks_extend_the_same_clause_kind":        total.nvBothForks,
 		"handle_probe_executions":                          total.probes,
